@@ -1,3 +1,367 @@
 //go:build verif
 
 package cmap
+
+// Simulation harness for the awaitable map (C15): seeded interleavings of bounded concurrent
+// histories, recorded with scheduler step stamps and checked offline by tools/linchk (porcupine),
+// plus online wake-up invariants.
+
+import (
+	"encoding/json"
+	"errors"
+	"fmt"
+	"os"
+	"strings"
+	"sync/atomic"
+	"testing"
+	"testing/synctest"
+	"time"
+
+	"github.com/thought-machine/please/src/verifsim"
+)
+
+type vmRun struct {
+	Seed   uint64          `json:"seed"`
+	Start  int             `json:"start"`
+	Count  int             `json:"count"`
+	Out    string          `json:"out"`
+	Replay json.RawMessage `json:"replay"`
+}
+
+type vmOp struct {
+	Kind string `json:"kind"` // add addorget set get getorwait contains values waitget
+	Key  int    `json:"key"`
+	Val  int    `json:"val,omitempty"`
+}
+
+type vmParams struct {
+	Seed    uint64   `json:"seed"`
+	Shards  uint64   `json:"shards"`
+	Keys    int      `json:"keys"`
+	Clients [][]vmOp `json:"clients"`
+	ErrMap  bool     `json:"errmap"`
+	Policy  string   `json:"policy"`
+	Choices []int    `json:"choices"`
+}
+
+// vmEvent is one completed (or pending) operation of the recorded history.
+type vmEvent struct {
+	Client  int    `json:"client"`
+	Kind    string `json:"kind"`
+	Key     int    `json:"key"`
+	Val     int    `json:"val"`
+	Out     int    `json:"out"`     // value returned
+	OutB    bool   `json:"outb"`    // bool returned (inserted / contains / first)
+	Wait    bool   `json:"wait"`    // GetOrWait returned a channel
+	Called  bool   `json:"called"`  // AddOrGet/GetOrSet ran its function
+	Vals    []int  `json:"vals"`    // Values()
+	Call    int64  `json:"call"`
+	Ret     int64  `json:"ret"`     // -1: never returned
+	WokenAt int64  `json:"woken_at"` // waitget: stamp at which the wait channel was observed closed
+}
+
+type vmResult struct {
+	Index     int                    `json:"index"`
+	Seed      uint64                 `json:"seed"`
+	Params    vmParams               `json:"params"`
+	History   []vmEvent              `json:"history"`
+	Violation *vmViolation           `json:"violation,omitempty"`
+	Stats     map[string]int64       `json:"stats"`
+	Overlaps  int                    `json:"overlaps"`
+}
+
+type vmViolation struct {
+	Class  string `json:"class"`
+	Detail string `json:"detail"`
+}
+
+func genVM(seed uint64) vmParams {
+	r := verifsim.NewRand(verifsim.SubSeed(seed, "c15"))
+	p := vmParams{Seed: seed, Shards: []uint64{1, 2, 4}[r.Intn(3)], Keys: 1 + r.Intn(3), ErrMap: r.Intn(5) == 0}
+	nc := 2 + r.Intn(4)
+	val := 100
+	waited := map[int]bool{}
+	budget := 26
+	for c := 0; c < nc; c++ {
+		var ops []vmOp
+		n := 2 + r.Intn(5)
+		for i := 0; i < n && budget > 0; i++ {
+			budget--
+			k := r.Intn(p.Keys)
+			val++
+			if p.ErrMap {
+				// Only GetOrSet, the operation the property names and the only one please's call sites use
+				// (a plain ErrMap.Get of an absent key leaves a placeholder nobody is "first" for, after
+				// which GetOrSet callers of that key wait forever: an API hazard outside the stated set).
+				ops = append(ops, vmOp{Kind: "getorset", Key: k, Val: val})
+				continue
+			}
+			switch x := r.Intn(20); {
+			case x < 4:
+				ops = append(ops, vmOp{Kind: "add", Key: k, Val: val})
+			case x < 6:
+				ops = append(ops, vmOp{Kind: "addorget", Key: k, Val: val})
+			case x < 8:
+				ops = append(ops, vmOp{Kind: "set", Key: k, Val: val})
+			case x < 11:
+				ops = append(ops, vmOp{Kind: "get", Key: k})
+			case x < 14:
+				ops = append(ops, vmOp{Kind: "getorwait", Key: k})
+			case x < 16:
+				ops = append(ops, vmOp{Kind: "contains", Key: k})
+			case x < 17:
+				ops = append(ops, vmOp{Kind: "values"})
+			default:
+				ops = append(ops, vmOp{Kind: "waitget", Key: k})
+				waited[k] = true
+			}
+		}
+		p.Clients = append(p.Clients, ops)
+	}
+	if !p.ErrMap {
+		// the closer: every key somebody may wait for is eventually set, so every waiter must be released
+		var ops []vmOp
+		for k := 0; k < p.Keys; k++ {
+			if waited[k] {
+				val++
+				kind := "set"
+				if r.Intn(2) == 0 {
+					kind = "add"
+				}
+				ops = append(ops, vmOp{Kind: kind, Key: k, Val: val})
+			}
+		}
+		if len(ops) > 0 {
+			p.Clients = append(p.Clients, ops)
+		}
+	}
+	return p
+}
+
+func stamp(ret bool) int64 {
+	s := int64(verifsim.Step()) * 2
+	if ret {
+		s++
+	}
+	return s
+}
+
+func scenarioVM(t *testing.T, seed uint64, replay *vmParams) vmResult {
+	p := genVM(seed)
+	if replay != nil {
+		p = *replay
+	}
+	res := vmResult{Seed: seed, Stats: map[string]int64{}}
+	hasher := func(k int) uint64 { return uint64(k) }
+	var hist [][]vmEvent = make([][]vmEvent, len(p.Clients))
+	var fcalls [8]atomic.Int64
+	var hung bool
+	var hungWhy string
+	var choices []int
+	func() {
+		defer func() {
+			if r := recover(); r != nil {
+				if !strings.Contains(fmt.Sprint(r), "deadlock") && !strings.Contains(fmt.Sprint(r), "blocked") {
+					panic(r)
+				}
+			}
+		}()
+		synctest.Test(t, func(t *testing.T) {
+			verifsim.Enable()
+			s := verifsim.NewScheduler(verifsim.Config{Seed: seed, Policy: p.Policy, Choices: p.Choices, MaxSteps: 100000, MaxSimTime: time.Hour, Record: true, SoftHang: true, MaxIdle: 3 * time.Second})
+			m := New[int, int](p.Shards, hasher)
+			em := NewErrMap[int, int](p.Shards, hasher, nil)
+			var tasks []verifsim.TaskSpec
+			for ci, ops := range p.Clients {
+				ci, ops := ci, ops
+				tasks = append(tasks, verifsim.TaskSpec{ID: fmt.Sprintf("c%d", ci), Fn: func() {
+					for _, op := range ops {
+						verifsim.Yield("op")
+						ev := vmEvent{Client: ci, Kind: op.Kind, Key: op.Key, Val: op.Val, Call: stamp(false), Ret: -1}
+						hist[ci] = append(hist[ci], ev)
+						e := &hist[ci][len(hist[ci])-1]
+						switch op.Kind {
+						case "add":
+							e.OutB = m.Add(op.Key, op.Val)
+						case "addorget":
+							e.Out, e.OutB = m.AddOrGet(op.Key, func() int { e.Called = true; return op.Val })
+						case "set":
+							m.Set(op.Key, op.Val)
+						case "get":
+							if p.ErrMap {
+								v, err := em.Get(op.Key)
+								e.Out = v
+								e.OutB = err != nil
+							} else {
+								e.Out = m.Get(op.Key)
+							}
+						case "getorwait":
+							v, w, first := m.GetOrWait(op.Key)
+							e.Out, e.Wait, e.OutB = v, w != nil, first
+						case "contains":
+							e.OutB = m.Contains(op.Key)
+						case "values":
+							e.Vals = m.Values()
+						case "waitget":
+							// the usage pattern of the build graph: wait until present, then read
+							v, w, first := m.GetOrWait(op.Key)
+							e.Out, e.Wait, e.OutB = v, w != nil, first
+							e.Ret = stamp(true)
+							if w != nil {
+								ev2 := vmEvent{Client: ci, Kind: "woken", Key: op.Key, Call: stamp(false), Ret: -1}
+								hist[ci] = append(hist[ci], ev2)
+								e2 := &hist[ci][len(hist[ci])-1]
+								verifsim.Yield("wait")
+								<-w
+								e2.WokenAt = stamp(false)
+								e2.Ret = stamp(true)
+								verifsim.Yield("op")
+								ev3 := vmEvent{Client: ci, Kind: "get", Key: op.Key, Call: stamp(false), Ret: -1}
+								hist[ci] = append(hist[ci], ev3)
+								e3 := &hist[ci][len(hist[ci])-1]
+								e3.Out = m.Get(op.Key)
+								e3.Val = -1 // marks "read after wake-up"
+								e3.Ret = stamp(true)
+							}
+							continue
+						case "getorset":
+							v, err := em.GetOrSet(op.Key, func() (int, error) {
+								fcalls[op.Key].Add(1)
+								e.Called = true
+								verifsim.Yield("f")
+								if op.Val%5 == 0 {
+									return 0, errors.New("f failed")
+								}
+								return op.Val, nil
+							})
+							e.Out = v
+							e.OutB = err != nil
+						}
+						e.Ret = stamp(true)
+					}
+				}})
+			}
+			s.RunTasks(tasks)
+			hung, hungWhy = s.Hung, s.HungWhy
+			choices = s.Recorded()
+			res.Stats["sched_steps"] = int64(s.Steps)
+			res.Stats["choices2plus"] = int64(s.Choices2plus)
+		})
+	}()
+	p.Choices = choices
+	res.Params = p
+	for _, h := range hist {
+		res.History = append(res.History, h...)
+	}
+	fail := func(cls, detail string) {
+		if res.Violation == nil {
+			res.Violation = &vmViolation{cls, detail}
+		}
+	}
+	// online / direct invariants
+	if hung {
+		// which waiter is stuck, and is its key present?
+		for _, e := range res.History {
+			if e.Kind == "woken" && e.Ret < 0 {
+				fail("lost-wakeup", fmt.Sprintf("client %d is still waiting for key %d although every waited key was set by the closer (%s)", e.Client, e.Key, hungWhy))
+			}
+		}
+		fail("hang", "clients did not finish: "+hungWhy)
+	}
+	firstInsertInvoke := map[int]int64{}
+	for _, e := range res.History {
+		if e.Kind == "add" || e.Kind == "set" || e.Kind == "addorget" {
+			if v, ok := firstInsertInvoke[e.Key]; !ok || e.Call < v {
+				firstInsertInvoke[e.Key] = e.Call
+			}
+		}
+	}
+	written := map[int]map[int]bool{}
+	for _, e := range res.History {
+		if e.Kind == "add" || e.Kind == "set" || e.Kind == "addorget" {
+			if written[e.Key] == nil {
+				written[e.Key] = map[int]bool{}
+			}
+			written[e.Key][e.Val] = true
+		}
+	}
+	for _, e := range res.History {
+		if e.Kind == "woken" && e.Ret >= 0 {
+			fi, ok := firstInsertInvoke[e.Key]
+			if !ok || fi > e.WokenAt {
+				fail("early-or-foreign-wakeup", fmt.Sprintf("client %d waiting for key %d was released at stamp %d before any insert of that key had been invoked (first insert invoked at %d, ok=%v)", e.Client, e.Key, e.WokenAt, fi, ok))
+			}
+		}
+		if e.Kind == "get" && e.Val == -1 && e.Ret >= 0 {
+			if !written[e.Key][e.Out] {
+				fail("wake-without-value", fmt.Sprintf("client %d was released for key %d but a following Get returned %d, not a value written for that key", e.Client, e.Key, e.Out))
+			}
+		}
+	}
+	if p.ErrMap {
+		results := map[int]map[string]bool{}
+		for _, e := range res.History {
+			if e.Kind == "getorset" && e.Ret >= 0 {
+				if results[e.Key] == nil {
+					results[e.Key] = map[string]bool{}
+				}
+				results[e.Key][fmt.Sprintf("%d/%v", e.Out, e.OutB)] = true
+			}
+		}
+		for k, rs := range results {
+			if n := fcalls[k].Load(); n != 1 {
+				fail("getorset-f-calls", fmt.Sprintf("ErrMap.GetOrSet ran its function %d times for key %d", n, k))
+			}
+			if len(rs) != 1 {
+				fail("getorset-results-differ", fmt.Sprintf("callers of ErrMap.GetOrSet for key %d received different results: %v", k, rs))
+			}
+		}
+	}
+	// overlap measure: pairs of operations on one key whose intervals intersect
+	for i := range res.History {
+		for j := i + 1; j < len(res.History); j++ {
+			a, b := res.History[i], res.History[j]
+			if a.Client != b.Client && a.Key == b.Key && a.Ret >= 0 && b.Ret >= 0 && a.Call <= b.Ret && b.Call <= a.Ret {
+				res.Overlaps++
+			}
+		}
+	}
+	return res
+}
+
+func TestVerifCmap(t *testing.T) {
+	path := os.Getenv("VERIF_RUN")
+	if path == "" {
+		t.Skip("VERIF_RUN not set")
+	}
+	data, err := os.ReadFile(path)
+	if err != nil {
+		panic(err)
+	}
+	var run vmRun
+	if err := json.Unmarshal(data, &run); err != nil {
+		panic(err)
+	}
+	out, err := os.OpenFile(run.Out, os.O_WRONLY|os.O_CREATE|os.O_TRUNC, 0o644)
+	if err != nil {
+		panic(err)
+	}
+	enc := json.NewEncoder(out)
+	for i := run.Start; i < run.Start+run.Count; i++ {
+		seed := verifsim.SubSeed(run.Seed, fmt.Sprintf("c15/%d", i))
+		var rp *vmParams
+		if len(run.Replay) > 0 {
+			rp = &vmParams{}
+			if err := json.Unmarshal(run.Replay, rp); err != nil {
+				panic(err)
+			}
+		}
+		res := scenarioVM(t, seed, rp)
+		res.Index = i
+		if err := enc.Encode(res); err != nil {
+			panic(err)
+		}
+	}
+	out.Close()
+	os.Exit(0)
+}
